@@ -304,6 +304,7 @@ struct Gen {
     rng: Rng,
     stray: u64, // per-mille chance that a use ignores the lexical scope
     strays: usize,
+    globals_clash: bool,
     feats: HashMap<&'static str, usize>,
 }
 
@@ -441,6 +442,11 @@ impl Gen {
             }
         }
         let body = self.block(&mut scope, depth);
+        // top-level items spelled like the local names: a local binder must shadow them
+        if self.globals_clash {
+            writeln!(src, "fn a(x: int32) -> int32 {{ x + 100 }}").unwrap();
+            writeln!(src, "fn b() -> int32 {{ 200 }}").unwrap();
+        }
         writeln!(src, "fn g({}) -> int32 {}", ps.join(", "), body).unwrap();
         let args: Vec<String> = ps.iter().enumerate().map(|(i, _)| format!("{}", i + 1)).collect();
         writeln!(src, "fn main() {{ string_println(int32_to_string(g({}))) }}", args.join(", ")).unwrap();
@@ -539,12 +545,17 @@ pub fn main(args: &util::Args) {
         // a third of the programs draw some names regardless of scope (ill-scoped stream)
         let stray = if i % 3 == 2 { 120 } else { 0 };
         let depth = 1 + (i % 3);
-        let mut g = Gen { rng, stray, strays: 0, feats: HashMap::new() };
+        let mut g = Gen { rng, stray, strays: 0, globals_clash: i % 4 == 1, feats: HashMap::new() };
         let src = g.program(depth);
         for (k, v) in &g.feats {
             *feats_total.entry(k).or_default() += v;
         }
-        let extra = format!("stream={} strays={}", if stray > 0 { "stray" } else { "scoped" }, g.strays);
+        let extra = format!(
+            "stream={} strays={} globals_clash={}",
+            if stray > 0 { "stray" } else { "scoped" },
+            g.strays,
+            g.globals_clash
+        );
         run_case(&format!("gen:{}:{}", args.seed, i), &src, &dir, None, &mut out, &extra);
     }
     let mut feats: Vec<_> = feats_total.into_iter().collect();
